@@ -884,6 +884,15 @@ fn load_config_from_string(cfg: &str) -> Result<SharedConfig, Error> {
                 }
                 (Some("captive-portal"), s) => {
                     captive_portal = parse_string("captive-portal", s)?;
+                    /* The URL is announced in router advertisements */
+                    if captive_portal
+                        .as_ref()
+                        .is_some_and(|u| u.len() > crate::radv::config::MAX_CAPTIVE_PORTAL_OCTETS)
+                    {
+                        return Err(Error::InvalidConfig(
+                            "captive-portal does not fit in a router advertisement option".into(),
+                        ));
+                    }
                 }
                 (Some("addresses"), s) => {
                     addresses = parse_array("addresses", s, parse_string_prefix)?;
